@@ -4,6 +4,22 @@ from vlib import *
 
 sys.path.insert(0, os.path.join(ROOT, "translator"))
 
+# Coq's printer may break a line right after an opening parenthesis ("(\n   4, None)"); after whitespace
+# folding vlib.coq_eval's pair regex then misses that (index, code) pair.  Normalise coqc output before it is
+# parsed (vlib itself is a shared file and is not edited here).
+import vlib as _vlib
+if not getattr(_vlib, "_paren_fix", False):
+    _orig_sh = _vlib.sh
+
+    def _sh_fixed(cmd, *a, **k):
+        rc, out = _orig_sh(cmd, *a, **k)
+        if isinstance(cmd, list) and cmd and cmd[0] == "coqc":
+            out = re.sub(r"\(\s+", "(", out)
+        return rc, out
+    _vlib.sh = _sh_fixed
+    _vlib._paren_fix = True
+    sh = _sh_fixed
+
 RULE = ("fmt: PageLabelStyle::format on EVERY number 0..4200 (thorough 0..20000) for all six styles + boundary (18278, 475254, 2^31, u32::MAX) "
         "and random large numbers; label: seeded random range sets (0..6 add_range calls in random order, duplicates, prefixes incl. non-ASCII, "
         "St in {0,1,26..28,52,53,702,703,18278, random, u32::MAX-3..u32::MAX}) x page indices (0,1,26,27,28,52,53,702,703, every range start -1/+0/+1/+27, "
